@@ -32,6 +32,7 @@ def run_cases(cases, res, stratum):
         s, n, nf = c['f']; code = c['c']; pb = c.get('pb', '0b'); ph = c.get('ph', '0x'); base = c.get('base', 2)
         try:
             x = A.mk(fx, np, s, n, nf, code)
+            if (code + n) % 4 == 0: x = A.mk(fx, np, s, n, nf, [0, code], shape=(2,))[1]      # (an element taken out of an array renders like an object of its own)
             obs = {'bin': x.bin(), 'bin_dot': x.bin(frac_dot=True, prefix=pb), 'hex': x.hex(prefix=ph), 'hex_default': x.hex(), 'base': x.base_repr(base)}
             # the other ways of selecting a prefix / padding, and the numeral with a binary point
             obs['bin_prefix_true'] = x.bin(prefix=True); obs['hex_prefix_true'] = x.hex(prefix=True); obs['hex_nopad'] = x.hex(padding=False)
@@ -176,14 +177,14 @@ def shard(shard, nshards, rng, tier, extra):
                           'pbc': rng.choice(['b', '0b', 'B', '0B']), 'phc': rng.choice(['x', '0x', 'X', '0X', 'h', '0h', 'H', '0H'])})
     run_cases(cases, res, 'A:all-codes-small')
     cases = []
-    for _ in range((600 if tier == 'quick' else 15000) // nshards):
+    for _ in range((1800 if tier == 'quick' else 15000) // nshards):
         n = rng.choice([9, 12, 15, 16, 17, 31, 32, 33, 52, 53, 63, 64, 65, 100, 127, 128, 129, 200, 256, rng.randint(9, 256)]); s = rng.random() < 0.5
         nf = rng.choice([0, 1, n // 2, n - 1, n]); lo, hi = S.fmt_bounds(s, n)
         code = rng.choice([lo, hi, 0, -1 if s else hi, lo + 1, hi - 1, rng.randint(lo, hi)])
         cases.append({'f': [s, n, nf], 'c': code, 'pb': rng.choice(['0b', 'b', '']), 'ph': rng.choice(['0x', '']), 'base': rng.choice([2, 8, 10, 16]),
                       'pbc': rng.choice(['b', '0b', 'B', '0B']), 'phc': rng.choice(['x', '0x', 'X', '0X', 'h', '0h', 'H', '0H'])})
     run_cases(cases, res, 'B:boundary-random-to-256')
-    run_arrays(rng, (150 if tier == 'quick' else 4000) // nshards, res)
+    run_arrays(rng, (450 if tier == 'quick' else 4000) // nshards, res)
     res.exhaustive = True
     return res
 
